@@ -101,7 +101,7 @@ let ekind_of = function
   | L [A "combine"; j] -> ECombine (chars j)
   | A "dict" -> EDict
   | L [A "opt"; d] -> EOpt (optx tok_of d)
-  | A "not" -> ENot | A "fb" -> EFollowedBy | A "located" -> ELocated
+  | A "not" -> ENot | A "fb" -> EFollowedBy | A "lookahead" -> ELookahead | A "located" -> ELocated
   | A "atstringstart" -> EAtStringStart | A "atlinestart" -> EAtLineStart
   | L [A "pb"; ex; r] -> EPrecededBy (ba ex, nat_of_int (ia r))
   | _ -> failwith "ekind"
